@@ -62,6 +62,7 @@ package cache
 //@   modifies map(c.items)
 //@   ensures cacheInv(c) && others(c, key)
 //@   ensures result != nil ==> sameMap(c)
+//@   ensures !old(key in c.items) && !isEmptyString(val) ==> result == nil
 //@   ensures result == nil ==> key in c.items && c.items[key].object == val && (c.expTime > 0 ==> old(now) + c.expTime <= c.items[key].expiration && c.items[key].expiration <= now + c.expTime) && (c.expTime <= 0 ==> c.items[key].expiration <= 0)
 
 //@ func (*cache.Cache).Update
